@@ -927,6 +927,7 @@ func sioCodec(h *H) {
 			switch {
 			case pn != "":
 				h.Case(rreq, "panic "+strings.ReplaceAll(pn, " ", "_"))
+				h.Violation("C10", "decoding a peer's packet panics", req, fmt.Sprintf("placeholder numbers %s with %d attachment(s), handler parameters %v: %s", strings.Join(nums, ","), nb, types, pn))
 			case err != nil:
 				h.Case(rreq, "err "+sioErrClass(err))
 				h.Dist("recon.err")
